@@ -21,6 +21,9 @@ CONSTANTS MAXK = %d
  SUBTRACT_OLD = %s
  ALLOW_RESUME = %s
  LIMITS <- Lims
+ SINGLE_STEP = %s
+ RECALC = %d
+INVARIANT I_SingleStepStops
 INVARIANT C13_StopOnlyWhenDue
 INVARIANT C13_RefineOnlyWhenNotDue
 INVARIANT C13_PointsMonotone
@@ -30,14 +33,20 @@ CHECK_DEADLOCK FALSE
 '''
 
 
+def mc_cfg(k, a, style, sub, res, single='FALSE', recalc=0):
+    return MC_CFG % (k, a, style, sub, res, single, recalc)
+
+
 def model_check(rep, tier, extra_inv=()):
-    runs = [(4, 6, 'WholeGrid', 'FALSE', 'TRUE'), (4, 6, 'NewAreasOnly', 'FALSE', 'FALSE')]
+    # (MAXK, MAXAREAS, STYLE, SUBTRACT_OLD, ALLOW_RESUME, SINGLE_STEP, RECALC)
+    runs = [(4, 6, 'WholeGrid', 'FALSE', 'TRUE', 'FALSE', 0), (4, 6, 'NewAreasOnly', 'TRUE', 'TRUE', 'FALSE', 0),
+            (4, 6, 'WholeGrid', 'FALSE', 'TRUE', 'TRUE', 0), (4, 6, 'NewAreasOnly', 'TRUE', 'TRUE', 'TRUE', 1)]
     if tier == 'thorough':
-        runs += [(5, 8, 'WholeGrid', 'FALSE', 'TRUE'), (5, 8, 'NewAreasOnly', 'TRUE', 'TRUE')]
-    for k, a, style, sub, res in runs:
-        cfg = MC_CFG % (k, a, style, sub, res) + ''.join('INVARIANT %s\n' % i for i in extra_inv)
+        runs += [(5, 8, 'WholeGrid', 'FALSE', 'TRUE', 'FALSE', 0), (5, 8, 'NewAreasOnly', 'TRUE', 'TRUE', 'FALSE', 2), (5, 8, 'NewAreasOnly', 'TRUE', 'TRUE', 'TRUE', 1)]
+    for k, a, style, sub, res, single, recalc in runs:
+        cfg = mc_cfg(k, a, style, sub, res, single, recalc) + ''.join('INVARIANT %s\n' % i for i in extra_inv)
         r, _ = tlc.run('MC_Driver', cfg, PROP.lower(), timeout=1500)
-        rep.tlc('Driver MAXK=%d MAXAREAS=%d %s subtract_old=%s resume=%s' % (k, a, style, sub, res), r)
+        rep.tlc('Driver MAXK=%d MAXAREAS=%d %s subtract_old=%s resume=%s single_step=%s recalc=%d' % (k, a, style, sub, res, single, recalc), r)
         if r.violated:
             raise tlc.TLCError('Driver.tla violates %s (model-level)' % r.violated)
         for act in ('Evaluate', 'DecideStop', 'DecideRefine'):
@@ -65,6 +74,12 @@ def configs(tier):
     L.append(dict(strategy='dimwise', D=2, lmin=1, lmax=2, func='tiny', norm=np.inf))
     L.append(dict(strategy='extendsplit', D=2, lmin=1, lmax=2, func='tiny', norm=2))
     L.append(dict(strategy='extendsplit', D=2, lmin=1, lmax=2, func='huge', norm=np.inf))
+    # the single_step option (stop at the first evaluation that shows two more points than before the last refinement) and periodic recalculation
+    L.append(dict(strategy='dimwise', D=2, lmin=1, lmax=2, func='cornerpeak', norm=np.inf, single_step=True))
+    L.append(dict(strategy='extendsplit', D=2, lmin=1, lmax=2, func='vector', norm=2, single_step=True))
+    L.append(dict(strategy='cell', D=2, lmin=2, lmax=2, func='cornerpeak', norm=np.inf, single_step=True))
+    L.append(dict(strategy='extendsplit', D=2, lmin=1, lmax=2, func='cornerpeak', norm=np.inf, recalc=2))
+    L.append(dict(strategy='dimwise', D=2, lmin=1, lmax=2, func='product', norm=2, recalc=1, single_step=True))
     return L
 
 
@@ -76,13 +91,14 @@ def run(tier, seed):
     nprobe = 5 if tier == 'quick' else 7
     nlims = 14 if tier == 'quick' else 40
     for c in configs(tier):
-        name = '%s D=%d (%d,%d) %s norm=%s%s%s' % (c['strategy'], c['D'], c['lmin'], c['lmax'], c['func'], c['norm'], ' zero-ref' if c.get('zero_ref') else '', ' ' + c['ec'] if c.get('ec') else '')
+        name = '%s D=%d (%d,%d) %s norm=%s%s%s%s%s' % (c['strategy'], c['D'], c['lmin'], c['lmax'], c['func'], c['norm'], ' zero-ref' if c.get('zero_ref') else '', ' ' + c['ec'] if c.get('ec') else '',
+                                                 ' single_step' if c.get('single_step') else '', ' recalc=%d' % c['recalc'] if c.get('recalc') else '')
         try:
             # probe: never stop by error, stop after nprobe evaluations (via a growing maximum)
             probe_events = None
             mx = 0
             for _ in range(nprobe):
-                S, rec, ret = DP.run_once(c, {'tol': -1.0, 'min': 1, 'max': mx}, checks=False)
+                S, rec, ret = DP.run_once({k: v for k, v in c.items() if k != 'single_step'}, {'tol': -1.0, 'min': 1, 'max': mx}, checks=False)
                 probe_events = rec.events
                 nps = [e['np'] for e in probe_events if e['k'] == 'E']
                 mx = nps[-1]
@@ -128,12 +144,12 @@ def run(tier, seed):
                 rep.count(1, key=(name, 'second', json.dumps(lims), json.dumps(lims2)), nontrivial=len(events2) > 2)
             # the stopped run is continued with other limits (continue_adaptive_refinement, or a new call that is handed the run's own refinement):
             # the stopping rules hold for the continuation as well, with the limits of the continuation
-            # (extend-split and cell runs are not continued here: their continuation re-evaluates the areas still marked new - recorded finding of C14)
-            if c['strategy'] == 'dimwise' and evp is None and rng.random() < 0.5:
+            # (the cell strategy is only continued through continue_adaptive_refinement: it does not terminate when a new call re-initialises it)
+            if evp is None and rng.random() < 0.5:
                 lims3 = dict(rng.choice(lims_list))
                 if lims3['max'] is None or lims3['max'] > max(nps):
                     lims3['max'] = int(max(nps))      # a continuation always carries a finite point budget (termination)
-                via = rng.choice(['resume', 'resume', 'container'])
+                via = rng.choice(['resume', 'resume', 'container']) if c['strategy'] == 'dimwise' else 'resume'
                 try:
                     n1 = len(rec.events)
                     rec.tol = lims3['tol']
@@ -143,14 +159,16 @@ def run(tier, seed):
                             ret3 = S['combi'].continue_adaptive_refinement(tol=lims3['tol'], max_evaluations=lims3['max'], min_evaluations=lims3['min'])
                         else:
                             ret3 = S['combi'].performSpatiallyAdaptiv(c['lmin'], c['lmax'], S['ec'], tol=lims3['tol'], max_evaluations=lims3['max'], min_evaluations=lims3['min'],
-                                                                     print_output=False, refinement_container=S['combi'].refinement)
+                                                                     print_output=False, refinement_container=S['combi'].refinement, **DP.option_kw(S, c))
                     ev3 = DP.ret_event(S, rec, ret3, c, lims3, with_c05=False)
                     if via == 'resume':
                         ev3['lens'] = []      # the history arrays of a resumed run keep the entries of the first part: their length is not one per evaluation of this part
                     # the continuation is judged as a run of its own that starts from the refinement reached so far (its first evaluation re-evaluates
                     # the current grid; the reported point count restarts from that grid, so it is not compared with the counts of the first part)
                     events3 = rec.events[n1:] + [ev3]
-                    tr3 = DP.to_trace(c, lims3, events3, name + ' (continuation via %s of a run stopped by limits %s, limits %s)' % (via, lims, lims3))
+                    # single_step: continue_adaptive_refinement carries the bookkeeping of the first part along, a new call starts afresh
+                    tr3 = DP.to_trace(c, lims3, events3, name + ' (continuation via %s of a run stopped by limits %s, limits %s)' % (via, lims, lims3),
+                                      last0=DP.last_count(rec.events[:n1]) if (via == 'resume' and c.get('single_step')) else -1)
                     tr3['_sig'] = {'continued': True, 'via': via}
                     traces.append(tr3)
                     rep.count(1, key=(name, 'continued', via, json.dumps(lims), json.dumps(lims3)), nontrivial=len(events3) > len(events) + 2)
